@@ -24,7 +24,8 @@ PATH2 = "ite(normalize_amp, uf('re_sub', 'Str', AMP_SUFFIXES_RE, '', %s), %s)" %
 SEG = "%s.rsplit('/', 1)" % PATH2
 FN = "uf('splitext', 'Tuple[Str,Str]', %s[len(%s) - 1])[0]" % (SEG, SEG)
 PATH3 = "ite(strip_index and (%s == 'index' or %s == 'default'), '/'.join(butlast(%s)), %s)" % (FN, FN, SEG, PATH2)
-DF = "next((f for d, f in PER_DOMAIN_QUERY_FILTERS if ('.' + g_S.hostname).endswith('.' + d)), None)"
+# the per-domain filter is chosen on the host the URL is normalized TO (g_FH: normalize_hostname of the parsed host; 'amp-youtube.com' is 'youtube.com')
+DF = "next((f for d, f in PER_DOMAIN_QUERY_FILTERS if ('.' + g_FH).endswith('.' + d)), None)"
 FRAG1 = "uf('safely_unquote_fragment', 'Str', %s)" % P4
 FRAG2 = ("ite(%s != '' and truthy(strip_fragment) and (strip_fragment is True or not uf('should_strip_fragment', 'Bool', %s)), '', %s)"
          % (FRAG1, FRAG1, FRAG1))
@@ -67,6 +68,7 @@ ENSURES = [
     "implies(%s, g_Q == %s)" % (OK, QSL),
     # ... filtered with the first per-domain filter whose domain ends the parsed host
     "implies(%s and %s != '', g_DF == %s)" % (OK, QUERY0, DF),
+    "implies(%s and %s != '', g_FH == uf('normalize_hostname', 'Str', some(g_S.hostname), normalize_amp))" % (OK, QUERY0),
     "implies(%s and not unsplit, result == %s)" % (OK, RECORD),
     "implies(%s and unsplit, result == obj(ite(%s and %s.startswith('//'), %s[2:], %s)))" % (OK, NOSCHEME, UNSPLIT, UNSPLIT, UNSPLIT),
 ]
@@ -148,11 +150,12 @@ MODULE = {
                       "query_item_filter": "Opt[Obj]", "original_url_arg": "Str", "has_protocol": "Opt[Obj]", "p": "Opt[Obj]",
                       "splitted": "Obj", "port": "Opt[Int]", "scheme": "Str", "netloc": "Str", "path": "Str", "query": "Str", "fragment": "Str",
                       "user": "Opt[Str]", "password": "Opt[Str]", "hostname": "Opt[Str]", "trailing_slash": "Bool", "segments": "Seq[Str]",
-                      "last_segment": "Str", "filename": "Str", "_": "Str", "qsl": "Seq[%s]" % ITEM, "domain_filter": "Opt[Obj]", "result": "Obj",
-                      "item": ITEM, "g_ok": "Bool", "g_S": "Obj", "g_Q": "Seq[%s]" % ITEM, "g_DF": "Opt[Obj]"},
+                      "last_segment": "Str", "filename": "Str", "filtered_hostname": "Str", "_": "Str", "qsl": "Seq[%s]" % ITEM, "domain_filter": "Opt[Obj]", "result": "Obj",
+                      "item": ITEM, "g_ok": "Bool", "g_S": "Obj", "g_Q": "Seq[%s]" % ITEM, "g_DF": "Opt[Obj]", "g_FH": "Str"},
             "returns": "Obj",
-            "ghost_entry": ["g_ok = False", "g_S = obj(url)", "g_Q = []", "g_DF = None"],
-            "ghost_after": {"port = splitted.port": ["g_ok = True", "g_S = splitted"], "if splitted.hostname:": ["g_DF = domain_filter"]},
+            "ghost_entry": ["g_ok = False", "g_S = obj(url)", "g_Q = []", "g_DF = None", "g_FH = ''"],
+            "ghost_after": {"port = splitted.port": ["g_ok = True", "g_S = splitted"], "if splitted.hostname:": ["g_DF = domain_filter"],
+                            "filtered_hostname = normalize_hostname(splitted.hostname, normalize_amp)": ["g_FH = filtered_hostname"]},
             "ghost_before": {"fragment = safely_unquote_fragment(fragment)": ["g_Q = qsl"]},
             "ensures": ENSURES,
             "asserts": {"netloc = unsplit_netloc(...)": [
